@@ -101,7 +101,7 @@ class ThreadWorker(Worker):
 
     def _get_result(self):
         # _result is set by the child directly
-        if self._result is None and self._started and not self.is_alive():
+        if self._started and not self.is_alive() and self._result is None:
             # the child died without recording an outcome (e.g. an asynchronous
             # exception landed outside of the try block or inside its handler)
             self._result = (False, None)
